@@ -103,7 +103,7 @@ Forget(k, c) ==
       o == [op |-> "forget", mn |-> k, n |-> c,
             hint |-> IF inodes[k] # "" /\ nodes[inodes[k]].ino = k /\ ~nodes[inodes[k]].wh THEN <<inodes[k]>> ELSE <<>>]
       S1 == RForget(S, k, c)
-      kind == IF S1.over # S.over THEN "over-forget" ELSE "forget"
+      kind == IF c > RGet(S.refs, k, 0) THEN "over-forget" ELSE "forget"
   IN IF inodes[k] # "" /\ nodes[inodes[k]].ino = k
      THEN LET n == inodes[k] nd == nodes[n]
               \* a node that still has its name keeps the tree's own reference (findings/ovlrefs-over-forget.diff);
